@@ -16,7 +16,7 @@ ASSUMPTIONS = [
     "float cumsum within 4(n+2)*eps*(prefix sum|x|); ints, bools and temporals exact; result dtype kind must stay integer/temporal",
 ]
 OPS = ["cumsum", "cumsum", "cummin", "cummax", "cumcount"]
-N_CASES = {"quick": 1100, "thorough": 30000}
+N_CASES = {"quick": 1100, "thorough": 12000}
 
 
 def plan(tier):
